@@ -233,6 +233,9 @@ func vxSoundness(s, t ast.BaseTerm, c ast.Constant) {
 	}
 	vxReach("wellformed-pair")
 	inS, inT := vxHas(s, c), vxHas(t, c)
+	vxObserve("member-of-S", inS)
+	vxObserve("member-of-T", inT)
+	vxObserve("S-conforms-to-T", SetConforms(nil, s, t))
 	if SetConforms(nil, s, t) && inS {
 		vxAssert(inT, "conformance-sound-for-membership")
 	}
